@@ -21,6 +21,8 @@ CORE = [
     ["LOGGER bg 6", "PRODUCER 1 L1:1:0 L1:2:0 L1:3:0", "PRODUCER 2 L2:1:0 L2:2:0", "PRODUCER 3 L3:1:0"],
     ["LOGGER bg 0", "PRE L1:1:0", "POST S1 L1:2:0 L2:1:0"],
     ["LOGGER na 6", "PRODUCER 1 L3:4:0 L2:1:1", "PRODUCER 2 L4:9:2 L6:0:0"],
+    ["LOGGER std 5", "PRE L3:1:0", "PRODUCER 1 L3:4:0 L6:2:0", "PRODUCER 2 L4:9:2", "POST S2 L3:2:0 L1:0:0"],
+    ["LOGGER stdf 6", "PRODUCER 1 L3:4:0 L2:1:1", "PRODUCER 2 L4:9:2 L6:0:0"],
     ["LOGGER na 4", "PRE L3:1:0", "PRODUCER 1 L3:40:0 L5:2:0 L1:3:3", "PRODUCER 2 L2:300:1", "PRODUCER 3 L4:0:2", "POST S6 L6:2:0"],
 ]
 
@@ -54,7 +56,7 @@ def burst_scenario(rng):
 
 
 def random_scenario(rng):
-    lines = ["LOGGER %s %d %s" % (rng.choice(["bg", "bg", "fg", "na"]), rng.randint(0, 6), rng.choice(["iso", "iso", "rfc"]))]
+    lines = ["LOGGER %s %d %s" % (rng.choice(["bg", "bg", "fg", "na", "std", "stdf"]), rng.randint(0, 6), rng.choice(["iso", "iso", "rfc"]))]
     if rng.random() < 0.6:
         lines.append("PRE " + " ".join(rand_ops(rng, rng.randint(1, 4), True)))
     for k in range(1, rng.randint(0, 3) + 1):
@@ -82,6 +84,15 @@ def formatter_scenarios(rng, thorough):
     for f in range(0, 7):
         for lv in range(1, 7):
             lines.append("NOALLOC %d %d %d %d" % (f, lv, rng.choice([0, 3, 50]), rng.randint(0, 3)))
+    out.append(lines)
+    lines = []
+    for nm in ["NONE", "FATAL", "ERROR", "WARN", "INFO", "DEBUG", "TRACE"]:
+        for v in {nm, nm.lower(), nm.capitalize(), nm[:-1], nm + "X", nm[1:], "".join(rng.choice([c.lower(), c]) for c in nm)}:
+            lines.append("LEVELSTR %s %s" % (v, v.upper()))
+    for v in ["WARNING", "0", "3", "INF0", "T", "_"]:
+        lines.append("LEVELSTR %s %s" % (v, v.upper()))
+    for lv in range(1, 7):
+        lines.append("NOLOGGER %d" % lv)
     out.append(lines)
     # subject names of every registered length x level, ample and tight buffers, and through the no-alloc logger
     lines = []
